@@ -112,6 +112,9 @@ func (c *chooser) loadStep(K int) string {
 		c.areal = true
 		return fmt.Sprintf("L:%s:%d:%d:%d:%d:%d:%d:0:%d", keysText(ks), p, d, m, rt, q, s, 4+r.Intn(4))
 	}
+	if r.Chance(1, 6) {
+		return text + fmt.Sprintf(":%d:8", r.Intn(3)) // stream_close_delay not set
+	}
 	if !c.areal && r.Chance(1, 12) {
 		c.bg = true
 		return text + fmt.Sprintf(":%d:2", r.Intn(3)) // active health checks run in the background
